@@ -14,6 +14,16 @@ func VerifSendOne(st *Transfer, src FileSource, name string, size int64) error {
 	return st.SendFiles(fl)
 }
 
+// VerifSendSession runs the real SendFiles loop against a file list of
+// regular files f0, f1, ... (sizes as given, read through src).
+func VerifSendSession(st *Transfer, src FileSource, names []string, sizes []int64) error {
+	fl := &fileList{}
+	for i, n := range names {
+		fl.Files = append(fl.Files, file{source: src, path: n, Wpath: n, regular: true, Length: sizes[i]})
+	}
+	return st.SendFiles(fl)
+}
+
 // VerifSendFileList runs the real SendFileList with the given filter rules
 // (wire format, e.g. "- name") and returns the transfer names in the order
 // in which Transfer.Do indexes them (sorted).
